@@ -25,6 +25,7 @@ import (
 	"math/big"
 	"os"
 	"os/exec"
+	"path/filepath"
 	"strings"
 	"syscall"
 	"time"
@@ -827,7 +828,7 @@ func asciiWord(r *Rng, n int) string {
 	return string(b)
 }
 
-func runWallets(o *Out, r *Rng, n int, hist Hist, caseJSON map[string][]map[string]interface{}) error {
+func runWallets(o *Out, r *Rng, n int, thorough bool, hist Hist, caseJSON map[string][]map[string]interface{}) error {
 	var items []string
 	ctypes := []crypto.CryptoType{crypto.CryptoTypeSha256Xor, crypto.CryptoTypeScryptChacha20poly1305Insecure}
 	// drive runs one wallet through an op sequence (random, or the given script) and
@@ -855,6 +856,9 @@ func runWallets(o *Out, r *Rng, n int, hist Hist, caseJSON map[string][]map[stri
 
 		pws := []string{"pwA-" + asciiWord(r, 6), "pwB-" + asciiWord(r, 6), ""}
 		nops := 3 + r.Intn(6)
+		if script != nil {
+			nops = len(script)
+		}
 		locked, lockPw := false, ""
 		var ops, obs []string
 		var opNames []string
@@ -878,7 +882,32 @@ func runWallets(o *Out, r *Rng, n int, hist Hist, caseJSON map[string][]map[stri
 			case x < 35:
 				pw = ""
 			}
+			reload := script == nil && r.Chance(12)
+			if script != nil { // "lock:<pw>", "unlock:<pw>", "reload"
+				f := strings.SplitN(script[k], ":", 2)
+				switch f[0] {
+				case "lock":
+					choice, pw = 0, f[1]
+				case "unlock":
+					choice, pw = lockLim, f[1]
+				default:
+					reload = true
+				}
+			}
 			switch {
+			case reload: // serialise and load again (the wallet file round trip)
+				var nw wallet.Wallet
+				panicked = Guard(func() {
+					var b []byte
+					if b, e = cur.Serialize(); e == nil {
+						nw, e = loadWallet(b)
+					}
+				})
+				if !panicked && e == nil {
+					cur = nw
+				}
+				ops = append(ops, "OReload")
+				opNames = append(opNames, "Reload")
 			case choice < lockLim:
 				panicked = Guard(func() { e = cur.Lock([]byte(pw)) })
 				if !panicked && e == nil {
@@ -887,7 +916,7 @@ func runWallets(o *Out, r *Rng, n int, hist Hist, caseJSON map[string][]map[stri
 				ops = append(ops, fmt.Sprintf("(OLock %s %d)", Str(pw), r.Intn(1000)))
 				opNames = append(opNames, "Lock")
 			case choice < unlockLim || kind != "KBip44":
-				keep := r.Chance(30)
+				keep := script == nil && r.Chance(30)
 				var u wallet.Wallet
 				panicked = Guard(func() { u, e = cur.Unlock([]byte(pw)) })
 				if !panicked && e == nil && !keep {
@@ -1010,10 +1039,189 @@ func runWallets(o *Out, r *Rng, n int, hist Hist, caseJSON map[string][]map[stri
 			return err
 		}
 	}
-	if err := loadedWallets(r, hist, drive); err != nil {
+	if err := loadedWallets(r, hist, drive, thorough); err != nil {
 		return err
 	}
 	defChunked(o, "cases_wallet", "wallet ideal_C * list wop * list (error * bool * string * string * string * list string * list (list (string * string)) * bool)", items)
+	return nil
+}
+
+
+// loadWallet loads a serialised wallet with the loader of its meta type.
+func loadWallet(b []byte) (wallet.Wallet, error) {
+	var top struct {
+		Meta map[string]string `json:"meta"`
+	}
+	if err := json.Unmarshal(b, &top); err != nil {
+		return nil, err
+	}
+	switch top.Meta["type"] {
+	case wallet.WalletTypeDeterministic:
+		return deterministic.Loader{}.Load(b)
+	case wallet.WalletTypeBip44:
+		return bip44wallet.Loader{}.Load(b)
+	case wallet.WalletTypeCollection:
+		return collection.Loader{}.Load(b)
+	}
+	return nil, fmt.Errorf("no loader for wallet type %q", top.Meta["type"])
+}
+
+// editMeta rewrites the meta object of a serialised wallet: keys mapped to nil are
+// removed, others set.
+func editMeta(b []byte, edits map[string]interface{}) ([]byte, bool, error) {
+	var top map[string]interface{}
+	if err := json.Unmarshal(b, &top); err != nil {
+		return nil, false, err
+	}
+	m, ok := top["meta"].(map[string]interface{})
+	if !ok {
+		return nil, false, fmt.Errorf("no meta object")
+	}
+	_, hadCrypto := m["cryptoType"]
+	for k, v := range edits {
+		if v == nil {
+			delete(m, k)
+		} else {
+			m[k] = v
+		}
+	}
+	out, err := json.Marshal(top)
+	return out, hadCrypto, err
+}
+
+func kindOf(w wallet.Wallet) string {
+	switch w.Type() {
+	case wallet.WalletTypeDeterministic:
+		return "KDet"
+	case wallet.WalletTypeBip44:
+		return "KBip44"
+	case wallet.WalletTypeCollection:
+		return "KColl"
+	}
+	return ""
+}
+
+// loadedWallets drives wallets obtained by LOADING serialised wallets: the repo's
+// testdata files and freshly serialised wallets with optional meta keys removed
+// (legacy shapes). Wallets without a cryptoType are locked with the default
+// cipher (scrypt N = 2^20, about 3 s and 1 GiB per call), so they run a short
+// script; the quick tier does this for the legacy deterministic file only.
+func loadedWallets(r *Rng, hist Hist, drive func(wallet.Wallet, string, bool, string, []string) error, thorough bool) error {
+	repo := os.Getenv("VERIF_REPO")
+	if repo == "" {
+		repo = "/repo"
+	}
+	var sources []struct {
+		name string
+		data []byte
+	}
+	for _, f := range []string{"testdata/test1.wlt", "testdata/test2.wlt", "testdata/test3.wlt", "testdata/test4-collection.wlt",
+		"testdata/test5-bip44.wlt", "testdata/test6-bip44.wlt", "testdata/test6-passphrase-bip44.wlt", "testdata/v2_no_encrypt.wlt",
+		"deterministic/testdata/test1.wlt", "deterministic/testdata/wallet_serialize.wlt",
+		"collection/testdata/test-collection.wlt", "collection/testdata/wallet_serialize.wlt"} {
+		b, err := os.ReadFile(filepath.Join(repo, "src/wallet", f))
+		if err != nil {
+			hist.Add("loaded:missing-file")
+			continue
+		}
+		sources = append(sources, struct {
+			name string
+			data []byte
+		}{f, b})
+	}
+	// freshly serialised wallets of each type
+	mn, err := bip39.NewMnemonic(r.Bytes(16))
+	if err != nil {
+		return err
+	}
+	_, sk, err := cipher.GenerateDeterministicKeyPair(r.Bytes(32))
+	if err != nil {
+		return err
+	}
+	dw, err := deterministic.NewWallet("c18l.wlt", "c18", "seed-"+asciiWord(r, 20), wallet.OptionGenerateN(2))
+	if err != nil {
+		return err
+	}
+	bw, err := bip44wallet.NewWallet("c18l.wlt", "c18", mn, "pp-"+asciiWord(r, 8), wallet.OptionGenerateN(2))
+	if err != nil {
+		return err
+	}
+	cw, err := collection.NewWallet("c18l.wlt", "c18", wallet.OptionCollectionPrivateKeys([]cipher.SecKey{sk}))
+	if err != nil {
+		return err
+	}
+	for _, w := range []wallet.Wallet{dw, bw, cw} {
+		b, err := w.Serialize()
+		if err != nil {
+			return err
+		}
+		sources = append(sources, struct {
+			name string
+			data []byte
+		}{"fresh-" + w.Type(), b})
+	}
+	shapes := []struct {
+		name  string
+		edits map[string]interface{}
+	}{
+		{"as-is", map[string]interface{}{}},
+		{"no-version", map[string]interface{}{"version": nil}},
+		{"version-0.1", map[string]interface{}{"version": "0.1"}},
+		{"no-tm-no-encrypted", map[string]interface{}{"tm": nil, "encrypted": nil}},
+		{"no-lastSeed", map[string]interface{}{"lastSeed": nil}},
+		{"no-label-no-seedPassphrase", map[string]interface{}{"label": nil, "seedPassphrase": nil}},
+	}
+	slow := 0
+	for si, src := range sources {
+		for hi, sh := range shapes {
+			if !thorough && hi > 0 && (si+hi)%3 != int(r.U64()%3) {
+				continue // the quick tier samples the shapes
+			}
+			// fast variant: the cipher is set to sha256-xor, random ops
+			ed := map[string]interface{}{"cryptoType": string(crypto.CryptoTypeSha256Xor)}
+			for k, v := range sh.edits {
+				ed[k] = v
+			}
+			b, _, err := editMeta(src.data, ed)
+			if err != nil {
+				return err
+			}
+			w, err := loadWallet(b)
+			if err != nil || w == nil || w.IsEncrypted() || kindOf(w) == "" {
+				hist.Add("loaded:rejected-by-loader")
+				continue
+			}
+			hist.Add("loaded:" + kindOf(w) + ":" + sh.name)
+			if err := drive(w, kindOf(w), false, "loaded "+src.name+" "+sh.name+" sha256-xor", nil); err != nil {
+				return err
+			}
+		}
+		// legacy variant: no cryptoType key at all, Lock falls back to the default cipher
+		legacy := src.name == "deterministic/testdata/test1.wlt"
+		if !legacy && !thorough {
+			continue // quick tier: the default cipher (2 scrypt calls at N = 2^20) only for the legacy file
+		}
+		b, _, err := editMeta(src.data, map[string]interface{}{"cryptoType": nil})
+		if err != nil {
+			return err
+		}
+		w, err := loadWallet(b)
+		if err != nil || w == nil || w.IsEncrypted() || kindOf(w) == "" {
+			hist.Add("loaded:rejected-by-loader")
+			continue
+		}
+		if !legacy {
+			slow++
+		}
+		script := []string{"lock:pw-legacy", "reload", "unlock:pw-legacy"}
+		if legacy && thorough {
+			script = []string{"lock:pw-legacy", "reload", "unlock:wrong-pw", "unlock:pw-legacy", "reload"}
+		}
+		hist.Add("loaded:" + kindOf(w) + ":no-cryptoType(default cipher)")
+		if err := drive(w, kindOf(w), false, "loaded "+src.name+" without cryptoType (default cipher)", script); err != nil {
+			return err
+		}
+	}
 	return nil
 }
 
@@ -1091,7 +1299,7 @@ func run(args []string) error {
 	if nw < 24 {
 		nw = 24
 	}
-	if err := runWallets(o, r, nw, hist, caseJSON); err != nil {
+	if err := runWallets(o, r, nw, f.Tier == "thorough" || f.Tier == "search", hist, caseJSON); err != nil {
 		return err
 	}
 	if err := runXpub(o, r, 4, caseJSON); err != nil {
